@@ -1139,6 +1139,12 @@ func (fr *frame) special(b *ssa.BasicBlock, site ssa.Instruction, name string, c
 		a, c2 := args[0], args[1]
 		va := app("bytesval", app("select", x.hget(h, ek), a.ts[0]), a.ts[1], a.ts[2])
 		vb := app("bytesval", app("select", x.hget(h, ek), c2.ts[0]), c2.ts[1], c2.ts[2])
+		// bytesval is the byte sequence itself: equal values mean equal bytes at every position (the other direction
+		// is congruence). Stated once per script, only where bytes.Equal occurs.
+		if _, done := x.sc.decls["$bytesval_injective"]; !done {
+			x.sc.decls["$bytesval_injective"] = ""
+			x.sc.assert("(forall ((a! (Array Int Int)) (oa! Int) (b! (Array Int Int)) (ob! Int) (l! Int)) (! (=> (= (bytesval a! oa! l!) (bytesval b! ob! l!)) (forall ((i! Int)) (! (=> (and (<= 0 i!) (< i! l!)) (= (select a! (+ oa! i!)) (select b! (+ ob! i!)))) :pattern ((select a! (+ oa! i!)))))) :pattern ((bytesval a! oa! l!) (bytesval b! ob! l!))))")
+		}
 		return Val{ts: []Term{and(eq(a.ts[2], c2.ts[2]), or(eq(a.ts[2], "0"), eq(va, vb)))}}, h, true
 	case "(*sync.Mutex).Lock", "(*sync.RWMutex).Lock", "(*sync.RWMutex).RLock":
 		// acquiring a lock is a point where writes of other goroutines become visible
